@@ -69,7 +69,12 @@ impl PatProp for Limits {
         // the reference is only consulted for the SIZE of its exploration ("tiny exploration => no limit
         // error"), never for its answer, so the classes with disputed semantics (F1, F4, F14) stay in
         let _ = (ctx, known_class);
-        let reference = Some(refm::compile(n));
+        // with the VM's own rule for empty loop iterations, so that the size of the two explorations is comparable
+        let reference = Some({
+            let mut r = refm::compile(n);
+            r.vm_loops = true;
+            r
+        });
         if reference.is_some() {
             st.class("oracle:reference-available");
         }
